@@ -12,11 +12,14 @@ KINDS = ["loop", "if", "foreach", "until"]
 def oracle(steps, err, prog):
     """the property on the implementation: every completed top-level operation leaves no
     register active, and compiling does not fail.  -> (index, what) or None"""
+    user = getattr(sc.run_sequence, "user", None) or []
     for i, s in enumerate(steps):
         if s is None:
             return i, f"compilation failed: {err['exc']}"
-        if s != []:
-            return i, f"registers {s} still active after a completed operation"
+        held = user[i] if i < len(user) else []
+        if s != held:
+            return i, (f"registers {s} active after a completed operation, but only {held} are held by the "
+                       f"program (builder.new_register)")
     return None
 
 
@@ -101,6 +104,7 @@ def run(ctx):
         stats["lengths"].append(len(prog))
         stats["flush_every"].append(k)
         stats["peaks"].append(max(peaks) if peaks else 0)
+        stats["asm"] = stats.get("asm", 0) + sc.run_sequence.asm_failures
         ctx.note_case(json.dumps(prog), len(prog) >= 50)
         f = oracle(steps, err, prog)
         if f is not None:
@@ -152,7 +156,46 @@ def run(ctx):
         metas.append(dict(kind="tower", prog=prog, depth=depth, err=err))
     ctx.coverage["stream"] = dict(kinds=stats["kinds"], sequences=n_seq, operations=sum(stats["lengths"]),
                                   flush_every=sorted(set(stats["flush_every"])), peak_max=max(stats["peaks"] or [0]),
-                                  towers=stats["towers"], towers_that_fail_in_both=stats["tower_failures"])
+                                  towers=stats["towers"], towers_that_fail_in_both=stats["tower_failures"],
+                                  blocks_the_assembler_could_not_fit=stats.get("asm", 0))
+
+    # second sentence of the property, on the implementation: programs that keep registers live in
+    # every way the SDK offers (open loops, loop_register=R_k, builder.new_register()) are compiled,
+    # EXECUTED on the real pipeline and compared with direct evaluation (the oracle of C05): a
+    # temporary or loop counter that lands on a live register changes iteration counts or values
+    g = sa.Gen(rng, max_depth=4, size=6, flush_p=0.15,
+               features=["loop", "foreach", "until", "if", "futadd", "regadd", "measreg", "newreg", "newarr"])
+    g.explicit_p = 0.6
+    live_items = []
+    for _ in range(70 if quick else 600):
+        prog, script = g.program()
+        obs = sa.run_program(repo, prog, script, max_qubits=64)
+        live_items.append(dict(prog=prog, script=script, obs=obs, fd=fd, tag="live-registers"))
+        ctx.note_case(json.dumps([prog, script]), True)
+    lk = {}
+    for it in live_items:
+        sa.stmt_kinds(it["prog"], lk)
+    ctx.coverage["live_register_programs"] = dict(cases=len(live_items), statement_kinds=lk)
+    s_bad, b_bad, untrans = sc.run_batch(ctx, "live", live_items, shard=50)
+    n_rep = 0
+    for i, code in sorted(b_bad.items()):
+        it = live_items[i]
+        if code == 1:
+            ctx.gen_obligation("generated program is meaningful for the specification", False, json.dumps(it["prog"])[:300])
+        elif code in (2, 3, 4, 5) and n_rep < 5:
+            n_rep += 1
+            obs = it["obs"]
+            ctx.violation("executing the compiled program differs from direct execution (" + sc.BCODE[code] + "); on "
+                          "these programs every register is live in some way (open loops, loop_register=, "
+                          "new_register): typically a live register was reused",
+                          dict(sdk_program=it["prog"], outcome_script=it["script"], prog=it["prog"],
+                               pipeline=dict(status=obs["status"], error=obs.get("exc"), msg=obs.get("msg"),
+                                             trace=obs["trace"][:60], final_arrays=obs["final_arrays"])), key=None)
+    only_struct = [i for i in s_bad if i not in b_bad]
+    if only_struct or untrans:
+        ctx.broken.append(f"correspondence flatten(lower P) vs the builder's commands on live-register programs: "
+                          f"{len(only_struct)} differ, first: "
+                          f"{json.dumps(live_items[only_struct[0]]['prog'])[:300] if only_struct else untrans[0]}")
 
     files = []
     shard = 4
